@@ -643,9 +643,10 @@ Definition run_handler (f : nat) (o : oracles) (s : sstate) (l : bytes) (namelen
   | 6 => let '(e, h, s') := h_rcpt o s rest_ in (e, h, s', st)
   | 7 => let '(e, h, s') := h_data f o s in
          (e, h, s', match h with H0 => Z.of_N (helo_state (esmtp s')) | _ => st end)
-  | 8 => (* STARTTLS without a certificate (harness configuration): tls_err() writes 454 and returns -EDONE,
-            which smtploop does not know: "500 5.3.0 unknown error" follows *)
-         ([Reply 454], HUNKNOWN, s, st)
+  | 8 => (* smtp_starttls: "if (xmitstat.ssl || !xmitstat.esmtp) return 1" (no TLS in this model; the flag can be clear in the
+            EHLO state: a refused HELO clears it); then, without a certificate (harness configuration), tls_err() writes 454
+            and returns -EDONE, which smtploop does not know: "500 5.3.0 unknown error" follows *)
+         if negb (esmtp s) then ([], HSEQ, s, st) else ([Reply 454], HUNKNOWN, s, st)
   | 9 => (* smtp_auth: "if (xmitstat.authname.len || !auth_permitted()) return 1" *)
       if authed s || negb (o_authperm o) then ([], HSEQ, s, st)
       else match o_auth o (skipn 5 l) with
